@@ -1,6 +1,7 @@
 package props
 
 import (
+	"golang.org/x/tools/go/packages"
 	"fmt"
 	"go/ast"
 	"go/constant"
@@ -703,6 +704,19 @@ func c07Tables(c *core.Ctx) {
 						}
 					}
 				}
+				// any other constant table of the package (an array of escape letters, say)
+				if v := core.VarOf(info, x.X); v != nil && v.Pkg() != nil && v.Parent() == v.Pkg().Scope() && v.Name() != "hex" {
+					if tb, zero, ok := c07ConstTable(fd.Pkg, v); ok {
+						if iv, ok := ev.Eval(x.Index); ok {
+							if n, isN := iv.(int64); isN {
+								if val, has := tb[n]; has {
+									return val, true
+								}
+								return zero, true
+							}
+						}
+					}
+				}
 			}
 			return nil, false
 		}
@@ -901,6 +915,92 @@ func c07EntryPoints(c *core.Ctx) {
 	isFn := func(fn *types.Func, name string) bool {
 		return fn != nil && fn.Pkg() != nil && fn.Pkg().Path() == pkgPath && fn.Name() == name && fn.Type().(*types.Signature).Recv() == nil
 	}
+	// the tree builders: UnmarshalJSON and the functions of the package it builds the tree with
+	// (those that hand back a Canonicalable)
+	treeBuilder := map[*types.Func]bool{}
+	if ufd := p.Func("c14n", "", "UnmarshalJSON"); ufd != nil {
+		treeBuilder[ufd.Obj] = true
+		work := []*types.Func{ufd.Obj}
+		for depth := 0; depth < 4 && len(work) > 0; depth++ {
+			var next []*types.Func
+			for _, f := range work {
+				for _, g := range p.FuncRefs(f) {
+					if g.Pkg() == nil || g.Pkg().Path() != pkgPath || treeBuilder[g] || p.DeclOf(g) == nil {
+						continue
+					}
+					if rs := g.Type().(*types.Signature).Results(); rs.Len() >= 1 && core.TypeString(rs.At(0).Type()) == "c14n.Canonicalable" {
+						treeBuilder[g] = true
+						next = append(next, g)
+					}
+				}
+			}
+			work = next
+		}
+	}
+	// canonicalBytes: every success return of the function hands back CanonicalJSON(...), the
+	// serialisation of a built tree, or what an unexported helper of the package with the same
+	// property returns
+	memo := map[*types.Func]int{}
+	var resultOK func(fd *core.FuncDecl, res ast.Expr, depth int) (bool, string)
+	var canonicalBytes func(fn *types.Func, depth int) bool
+	resultOK = func(fd *core.FuncDecl, res ast.Expr, depth int) (bool, string) {
+		info := fd.Pkg.TypesInfo
+		ld := core.NewLocalDefs(info, fd.Decl.Body)
+		ok, why := true, ""
+		for _, src := range valueSources(info, ld, res, 0) {
+			call, isCall := ast.Unparen(src).(*ast.CallExpr)
+			if !isCall {
+				ok, why = false, types.ExprString(src)
+				continue
+			}
+			fn := core.Callee(info, call)
+			switch {
+			case isFn(fn, "CanonicalJSON"):
+			case fn != nil && fn.Name() == "MarshalJSON" && core.RecvExpr(call) != nil:
+				// the receiver must be a tree the package built from a JSON text
+				for _, rs := range valueSources(info, ld, core.RecvExpr(call), 0) {
+					rc, isC := ast.Unparen(rs).(*ast.CallExpr)
+					if !isC || core.Callee(info, rc) == nil || !treeBuilder[core.Callee(info, rc)] {
+						ok, why = false, types.ExprString(call)+", whose receiver is not the result of UnmarshalJSON"
+					}
+				}
+			case fn != nil && fn.Pkg() != nil && fn.Pkg().Path() == pkgPath && !fn.Exported() && fn.Type().(*types.Signature).Recv() == nil && canonicalBytes(fn, depth+1):
+			default:
+				ok, why = false, types.ExprString(call)
+			}
+		}
+		return ok, why
+	}
+	canonicalBytes = func(fn *types.Func, depth int) bool {
+		if v, ok := memo[fn]; ok {
+			return v == 1
+		}
+		memo[fn] = 2
+		hfd := p.DeclOf(fn)
+		if hfd == nil || hfd.Decl.Body == nil || depth > 3 {
+			return false
+		}
+		hinfo := hfd.Pkg.TypesInfo
+		hff := core.NewFuncFlow(hfd)
+		n, all := 0, true
+		for _, r := range hff.Flow.Returns() {
+			if !hff.Flow.Reachable(r) || len(r.Results) == 0 {
+				continue
+			}
+			if len(r.Results) == 2 && core.IsNil(hinfo, r.Results[0]) {
+				continue
+			}
+			n++
+			if ok, _ := resultOK(hfd, r.Results[0], depth); !ok {
+				all = false
+			}
+		}
+		if n > 0 && all {
+			memo[fn] = 1
+			return true
+		}
+		return false
+	}
 	for _, name := range []string{"MarshalJSON", "CanonicalJSON"} {
 		fd := p.Func("c14n", "", name)
 		if fd == nil {
@@ -908,7 +1008,6 @@ func c07EntryPoints(c *core.Ctx) {
 			continue
 		}
 		info := fd.Pkg.TypesInfo
-		ld := core.NewLocalDefs(info, fd.Decl.Body)
 		ff := core.NewFuncFlow(fd)
 		n := 0
 		for _, r := range ff.Flow.Returns() {
@@ -920,32 +1019,94 @@ func c07EntryPoints(c *core.Ctx) {
 				continue // a failure
 			}
 			n++
-			ok, why := true, ""
-			for _, src := range valueSources(info, ld, res, 0) {
-				call, isCall := ast.Unparen(src).(*ast.CallExpr)
-				if !isCall {
-					ok, why = false, types.ExprString(src)
-					continue
-				}
-				fn := core.Callee(info, call)
-				switch {
-				case isFn(fn, "CanonicalJSON"):
-				case fn != nil && fn.Name() == "MarshalJSON" && core.RecvExpr(call) != nil:
-					// the receiver must be the tree UnmarshalJSON built
-					for _, rs := range valueSources(info, ld, core.RecvExpr(call), 0) {
-						rc, isC := ast.Unparen(rs).(*ast.CallExpr)
-						if !isC || !isFn(core.Callee(info, rc), "UnmarshalJSON") {
-							ok, why = false, types.ExprString(call)+", whose receiver is not the result of UnmarshalJSON"
-						}
-					}
-				default:
-					ok, why = false, types.ExprString(call)
-				}
-			}
+			ok, why := resultOK(fd, res, 0)
 			c.Ob("C07-R10", fmt.Sprintf("%s#result%d", fd.Name(), n), r.Pos(), ok, fmt.Sprintf("%s returns %s: bytes that were not produced by serialising the canonical tree built from a JSON text — a value with its own MarshalJSON (json.RawMessage, a document object, a hand-built tree) comes back as it is, unsorted and unnormalised", fd.Name(), why))
 		}
 		if n == 0 {
 			c.Ob("C07-R10", fd.Name()+"#result", fd.Decl.Pos(), false, "NOT FOUND: no result returned")
 		}
 	}
+}
+
+// c07ConstTable folds a package-level array / slice / map literal with constant
+// integer keys (or positions) and constant elements (integers, booleans,
+// strings) into a table; zero is what an absent index of an array yields.
+func c07ConstTable(pk *packages.Package, v *types.Var) (map[int64]any, any, bool) {
+	info := pk.TypesInfo
+	var lit *ast.CompositeLit
+	for _, file := range pk.Syntax {
+		ast.Inspect(file, func(n ast.Node) bool {
+			if vs, ok := n.(*ast.ValueSpec); ok {
+				for i, nm := range vs.Names {
+					if info.Defs[nm] == v && i < len(vs.Values) {
+						lit, _ = ast.Unparen(vs.Values[i]).(*ast.CompositeLit)
+					}
+				}
+			}
+			return true
+		})
+	}
+	if lit == nil {
+		return nil, nil, false
+	}
+	var elem types.Type
+	switch t := v.Type().Underlying().(type) {
+	case *types.Array:
+		elem = t.Elem()
+	case *types.Slice:
+		elem = t.Elem()
+	case *types.Map:
+		elem = t.Elem()
+	default:
+		return nil, nil, false
+	}
+	var zero any
+	if b, ok := elem.Underlying().(*types.Basic); ok {
+		switch {
+		case b.Info()&types.IsBoolean != 0:
+			zero = false
+		case b.Info()&types.IsInteger != 0:
+			zero = int64(0)
+		case b.Info()&types.IsString != 0:
+			zero = ""
+		default:
+			return nil, nil, false
+		}
+	} else {
+		return nil, nil, false
+	}
+	out := map[int64]any{}
+	next := int64(0)
+	for _, el := range lit.Elts {
+		val := el
+		if kv, ok := el.(*ast.KeyValueExpr); ok {
+			ktv, ok := info.Types[kv.Key]
+			if !ok || ktv.Value == nil {
+				return nil, nil, false
+			}
+			k, exact := constant.Int64Val(constant.ToInt(ktv.Value))
+			if !exact {
+				return nil, nil, false
+			}
+			next = k
+			val = kv.Value
+		}
+		vtv, ok := info.Types[val]
+		if !ok || vtv.Value == nil {
+			return nil, nil, false
+		}
+		switch vtv.Value.Kind() {
+		case constant.Bool:
+			out[next] = constant.BoolVal(vtv.Value)
+		case constant.Int:
+			n, _ := constant.Int64Val(vtv.Value)
+			out[next] = n
+		case constant.String:
+			out[next] = constant.StringVal(vtv.Value)
+		default:
+			return nil, nil, false
+		}
+		next++
+	}
+	return out, zero, true
 }
